@@ -60,7 +60,7 @@ func Txs(t *rapid.T, n int, maxPages uint32) []pager.Tx {
 		if rapid.IntRange(0, 3).Draw(t, "spill?") == 0 {
 			tx.SpillAfter = rapid.IntRange(1, 6).Draw(t, "spill")
 		}
-		if cur > 0 && rapid.IntRange(0, 4).Draw(t, "rollback?") == 0 {
+		if rapid.IntRange(0, 4).Draw(t, "rollback?") == 0 { // also the very first transaction of a new database
 			tx.Rollback = true
 		}
 		txs = append(txs, tx)
